@@ -72,10 +72,12 @@ impl SchedulerCore {
         // Now claim the queue
         let mut queue_core  = queue.core.lock().expect("Queue lock");
 
-        // The queue must be idle or pending to be claimable
+        // The queue must be idle or pending to be claimable (or waiting for a future to be polled: like the scheduler threads in next_to_run(), the
+        // caller takes the queue over in case the task that was polling it has gone away, which would otherwise leave nobody to run it)
         match queue_core.state {
-            QueueState::Pending |
-            QueueState::Idle    => {
+            QueueState::Pending             |
+            QueueState::WaitingForPoll(_)   |
+            QueueState::Idle                => {
                 // Move the queue to the running state
                 queue_core.state = QueueState::Running;
 
